@@ -72,17 +72,17 @@ type FSOutcome struct {
 }
 
 type fsWalker struct {
-	fn      *ssa.Function
-	c       ssa.CallInstruction
-	e       ssa.Value
-	retry   bool
-	wantSig bool // function has no error result: require a signal before returning
-	seen    map[string]bool
-	states  int
-	out     []FSOutcome
-	over    bool
+	fn        *ssa.Function
+	c         ssa.CallInstruction
+	e         ssa.Value
+	retry     bool
+	wantSig   bool // function has no error result: require a signal before returning
+	seen      map[string]bool
+	states    int
+	out       []FSOutcome
+	over      bool
 	tolerated int
-	tolerate []string // extra tolerated predicates: "pkg.fn" or "errors.Is:pkg.Var" or "errors.As"
+	tolerate  []string // extra tolerated predicates: "pkg.fn" or "errors.Is:pkg.Var" or "errors.As"
 }
 
 func (w *fsWalker) toleratedPredicate(call *ssa.Call) bool {
@@ -381,6 +381,17 @@ func (w *fsWalker) walk(b *ssa.BasicBlock, idx int, prev *ssa.BasicBlock, s *fsS
 						delete(s.env, x)
 					}
 				}
+				// a local closure that records its error argument in a captured cell
+				// (`keepFirst := func(e error) { if e != nil && err == nil { err = e } }`)
+				if mc, ok := x.Call.Value.(*ssa.MakeClosure); ok {
+					if g, ok := mc.Fn.(*ssa.Function); ok {
+						for pi, cell := range closureRecordsError(g) {
+							if pi < len(x.Call.Args) && w.eval(s, x.Call.Args[pi]) == nsNonNil {
+								s.cells[cellKey{cell, -1}] = nsNonNil
+							}
+						}
+					}
+				}
 				// signal sinks
 				nm := calleeName(x)
 				if strings.HasSuffix(nm, ".CloseWithError") && len(x.Call.Args) >= 2 {
@@ -670,4 +681,71 @@ func pathStr(p *Prog, path []*ssa.BasicBlock) []string {
 		out = append(out[:14], append([]string{"..."}, out[len(out)-15:]...)...)
 	}
 	return out
+}
+
+var closureRecordsCache = map[*ssa.Function]map[int]ssa.Value{}
+
+// closureRecordsError: for a closure without error result, the error parameters p (by
+// index) that are recorded in a captured cell C whenever p is non-nil: every path from
+// the entry to a return stores p into C unless it passes an edge on which p == nil or
+// C already holds a non-nil error.  After the call, C is non-nil if the argument was.
+func closureRecordsError(g *ssa.Function) map[int]ssa.Value {
+	if m, ok := closureRecordsCache[g]; ok {
+		return m
+	}
+	m := map[int]ssa.Value{}
+	closureRecordsCache[g] = m
+	if g == nil || g.Blocks == nil || g.Parent() == nil || errResultIndex(g.Signature) >= 0 {
+		return m
+	}
+	for pi, p := range g.Params {
+		if !isErrorType(p.Type()) {
+			continue
+		}
+		var cell ssa.Value
+		avoid := map[*ssa.BasicBlock]bool{}
+		other := false
+		for _, b := range g.Blocks {
+			for _, in := range b.Instrs {
+				st, ok := in.(*ssa.Store)
+				if !ok {
+					continue
+				}
+				fv, isFV := st.Addr.(*ssa.FreeVar)
+				if !isFV || !isErrorType(deref(fv.Type())) {
+					continue
+				}
+				if st.Val == ssa.Value(p) {
+					if c := cellOf(fv); c != nil {
+						cell = c
+						avoid[b] = true
+					}
+				} else {
+					other = true
+				}
+			}
+		}
+		if cell == nil || other {
+			continue
+		}
+		pp := p
+		isCellLoad := func(v ssa.Value) bool {
+			u, ok := v.(*ssa.UnOp)
+			return ok && u.Op == token.MUL && cellOf(u.X) == cell
+		}
+		cut := factEdgesAlts(g, 3,
+			cmpFact(func(v ssa.Value) bool { return v == ssa.Value(pp) }, token.EQL, vNil(), ""),
+			cmpFact(isCellLoad, token.NEQ, vNil(), ""))
+		r := reachableAvoiding(g, nil, cut, avoid)
+		ok := true
+		for _, ret := range returns(g) {
+			if r[ret.Block()] && !avoid[ret.Block()] {
+				ok = false
+			}
+		}
+		if ok {
+			m[pi] = cell
+		}
+	}
+	return m
 }
